@@ -115,6 +115,17 @@ def jobs_for(pid=None):
     return jobs
 
 
+_UNJ = None
+
+
+def unjudged():
+    global _UNJ
+    if _UNJ is None:
+        fp = os.path.join(HERE, "benign", "UNJUDGED.json")
+        _UNJ = json.load(open(fp)) if os.path.exists(fp) else {}
+    return _UNJ
+
+
 def evaluate(results):
     rows = []
     ok_all = True
@@ -124,6 +135,12 @@ def evaluate(results):
             continue
         if expected == "benign":
             bad = {p: r for p, r in res.items() if r[0] != 0}
+            # restructurings the machinery is known not to see through: the check must say so (exit 2, ANALYSIS-ERROR) and must
+            # never accuse the code (exit 1).  benign/UNJUDGED.json lists them with the reason; anything else is a failed expectation.
+            lim = unjudged().get(name)
+            if bad and lim is not None and all(r[0] == 2 and p in lim["unjudged_by"] for p, r in bad.items()):
+                rows.append((name, "unjudged", f"{sorted(bad)} end with ANALYSIS-ERROR as listed in benign/UNJUDGED.json ({lim['why'][:90]})"))
+                continue
             if bad:
                 ok_all = False
                 rows.append((name, "FALSE-ALARM", "; ".join(f"{p} exit {r[0]}: {r[1]}" for p, r in bad.items())))
@@ -150,17 +167,20 @@ def run_for_property(pid, rep):
     ok, rows = run(pid)
     killed = sum(1 for r in rows if r[1] == "killed")
     silent = sum(1 for r in rows if r[1] == "silent")
+    unj = [r for r in rows if r[1] == "unjudged"]
     missed = [r for r in rows if r[1] == "MISSED"]
     fa = [r for r in rows if r[1] == "FALSE-ALARM"]
     skipped = [r for r in rows if r[1] == "SKIP"]
     rep.extra["sensitivity_audit"] = {
         "break_variants_run": killed + len(missed), "killed": killed, "missed": [r[0] for r in missed],
-        "benign_variants_run": silent + len(fa), "false_alarms": [f"{r[0]}: {r[2][:200]}" for r in fa],
+        "benign_variants_run": silent + len(fa) + len(unj), "benign_silent": silent,
+        "benign_reported_as_unjudgeable": [f"{r[0]}: {r[2][:200]}" for r in unj],
+        "false_alarms": [f"{r[0]}: {r[2][:200]}" for r in fa],
         "skipped_stale": [f"{r[0]}: {r[2][:80]}" for r in skipped],
         "samples": [f"{r[0]} -> {r[1]}: {r[2][:160]}" for r in rows[:12]],
     }
-    print(f"{pid} sensitivity audit: {killed}/{killed + len(missed)} break-variants killed, {silent}/{silent + len(fa)} benign variants silent, "
-          f"{len(skipped)} stale")
+    print(f"{pid} sensitivity audit: {killed}/{killed + len(missed)} break-variants killed, {silent}/{silent + len(fa) + len(unj)} benign variants silent, "
+          f"{len(unj)} benign restructuring(s) end with ANALYSIS-ERROR as listed in benign/UNJUDGED.json, {len(skipped)} stale")
     for r in missed + fa:
         print(f"ANALYSIS-ERROR property={pid} self-test expectation failed: {r[0]} {r[1]} {r[2][:300]}")
     if missed or fa:
@@ -177,6 +197,8 @@ def main(pid=None):
         print(f"{r[0]:<{w}}  {r[1]:<11}  {r[2][:200]}")
     n_k = sum(1 for r in rows if r[1] == "killed")
     n_s = sum(1 for r in rows if r[1] == "silent")
+    n_u = sum(1 for r in rows if r[1] == "unjudged")
     n_bad = sum(1 for r in rows if r[1] in ("MISSED", "FALSE-ALARM"))
-    print(f"self-test: {n_k} killed, {n_s} silent, {n_bad} failed expectation(s), {sum(1 for r in rows if r[1] == 'SKIP')} stale")
+    print(f"self-test: {n_k} killed, {n_s} silent, {n_u} benign restructuring(s) reported as unjudgeable (listed), {n_bad} failed expectation(s), "
+          f"{sum(1 for r in rows if r[1] == 'SKIP')} stale")
     return 0 if ok else 1
